@@ -18,7 +18,14 @@ def area_modules():
 def collect(prop, tier):
     out = []
     for name in area_modules():
-        mod = importlib.import_module(name)
+        try:
+            mod = importlib.import_module(name)
+        except Exception as ex:      # noqa
+            if os.environ.get('VERIF_DEV'):
+                # developer runs tolerate an area module that is being edited; registered checks do not
+                print('WARNING: area module %s does not import (%s): skipped (VERIF_DEV)' % (name, str(ex)[:120]))
+                continue
+            raise
         f = getattr(mod, 'units', None)
         if f is None:
             continue
